@@ -17,7 +17,7 @@ pub const RECORDED: &[&str] = &[
     "xlsx:unparsable-formula-reinterpreted", "xlsx:orphan-spill-cell-becomes-value", "xlsx:export-panic-dangling-name-scope",
     "xlsx:export-panic-unevaluated", "xlsx:sheet-name-whitespace-normalised", "xlsx:cf-dxf-false-flag-dropped", "xlsx:cf-text-equals-becomes-formula",
     "xlsx:cf-timeperiod-between-becomes-formula", "xlsx:cf-iconset-icons-and-colors-not-kept", "xlsx:cf-iconrating-color-not-kept",
-    "xlsx:border-diagonal-flags-lost", "xlsx:formula-text-not-decoded", "xlsx:error-nimpl-display", "escape-lookalike-then-control",
+    "xlsx:border-diagonal-flags-lost", "xlsx:border-style-dotted-becomes-thin", "xlsx:array-range-off-grid-cell-dropped", "xlsx:array-range-off-grid-import-error", "xlsx:formula-text-not-decoded", "xlsx:error-nimpl-display", "escape-lookalike-then-control",
 ];
 
 fn rc_of(key: &str) -> (i32, i32) {
@@ -83,8 +83,9 @@ pub fn classify(orig: &Model, d: &Diff) -> Option<String> {
             if !has_cells { return Some("xlsx:row-attributes-without-cells".into()); }
         }
         ("sheet", Some(b), Some(a)) => {
-            let strip = |l: &str| { let c = field(l, "color="); l.replace(&format!("color={c}"), "color=*") };
-            if strip(b) == strip(a) && field(b, "color=") != "None" && field(a, "color=") == "None" { return Some("xlsx:sheet-color-not-exported".into()); }
+            let col = |l: &str| -> String { match (l.find(" color="), l.find(" frozen=")) { (Some(p), Some(q)) if p < q => l[p + 7..q].to_string(), _ => String::new() } };
+            let strip = |l: &str| l.replace(&format!(" color={}", col(l)), " color=*");
+            if strip(b) == strip(a) && col(b) != "None" && col(a) == "None" { return Some("xlsx:sheet-color-not-exported".into()); }
             if ws.map(|w| ws_name_fragile(&w.name)).unwrap_or(false) { return Some("xlsx:sheet-name-whitespace-normalised".into()); }
         }
         ("cf", Some(b), Some(a)) => {
@@ -101,6 +102,9 @@ pub fn classify(orig: &Model, d: &Diff) -> Option<String> {
             if style_part(b) != style_part(a) {
                 let norm = |s: &str| s.replace("diagonal_up: true", "diagonal_up: false").replace("diagonal_down: true", "diagonal_down: false");
                 if b.replace(style_part(b), "") == a.replace(style_part(a), "") && norm(style_part(b)) == norm(style_part(a)) { return Some("xlsx:border-diagonal-flags-lost".into()); }
+                if b.replace(style_part(b), "") == a.replace(style_part(a), "") && style_part(b).replace("style: Dotted", "style: Thin") == style_part(a) { return Some("xlsx:border-style-dotted-becomes-thin".into()); }
+                // both causes in one border
+                if b.replace(style_part(b), "") == a.replace(style_part(a), "") && norm(&style_part(b).replace("style: Dotted", "style: Thin")) == norm(style_part(a)) { return Some("xlsx:border-diagonal-flags-lost".into()); }
                 return Some("xlsx:unclassified:cell-style".into());
             }
             let (wb_, wa) = (cell_words(b), cell_words(a));
@@ -133,6 +137,10 @@ pub fn classify(orig: &Model, d: &Diff) -> Option<String> {
             }
             if wb_.get(3) == Some(&"spill") && wa.get(3) == Some(&"spill") { return None; }
         }
+        ("cell", Some(_), None) if {
+            let (row, col) = rc_of(&d.key);
+            matches!(ws.and_then(|w| w.cell(row, col)), Some(Cell::ArrayFormula { r, .. }) if col + r.0 - 1 > 16384)
+        } => { return Some("xlsx:array-range-off-grid-cell-dropped".into()); }
         ("cell", Some(b), None) | ("cell", None, Some(b)) => {
             // spill cells appear / vanish with the value of their anchor
             if b.contains(" spill ") { return None; }
@@ -175,7 +183,11 @@ pub fn check_model(m: &Model) -> Result<usize, Vec<(String, String)>> {
         }
         Trip::ExportPanic(e) => Err(vec![(classify_panic(m, &e), e)]),
         Trip::ExportErr(e) => Err(vec![("xlsx:export-error".into(), e)]),
-        Trip::ImportErr(e) => Err(vec![("xlsx:import-error".into(), e)]),
+        Trip::ImportErr(e) => {
+            use ironcalc_base::types::Cell;
+            let off = m.workbook.worksheets.iter().any(|w| w.sheet_data.iter().any(|(r, row)| row.values().any(|c| matches!(c, Cell::ArrayFormula { r: rg, .. } if r + rg.1 - 1 > 1_048_576))));
+            if e.contains("Invalid range") && off { Err(vec![("xlsx:array-range-off-grid-import-error".into(), e)]) } else { Err(vec![("xlsx:import-error".into(), e)]) }
+        }
         Trip::ImportPanic(e) => Err(vec![("xlsx:import-panic".into(), e)]),
         Trip::ModelErr(e) => Err(vec![("xlsx:from-workbook-error".into(), e)]),
     }
@@ -184,7 +196,7 @@ pub fn check_model(m: &Model) -> Result<usize, Vec<(String, String)>> {
 pub fn workbook_part(a: &Args, or: &mut Oracle) -> WbStats {
     let explore = a.extra.iter().any(|x| x == "explore");
     let mut rng = Rng::new(a.seed ^ 0xC24);
-    let (nh, len) = if a.thorough { (1200u64, 40u64) } else { (50, 25) };
+    let (nh, len) = if a.extra.iter().any(|x| x == "nohist") { (0u64, 0u64) } else if a.thorough { (400u64, 40u64) } else { (50, 25) };
     let mut trips = 0u64; let mut lines = 0u64; let mut stopped = 0u64;
     let mut hist: BTreeMap<String, (u64, String)> = BTreeMap::new();
     for h in 0..nh {
